@@ -96,6 +96,7 @@ TRANSPARENT = [
 ]
 _TRANSPARENT_RE = re.compile("|".join("(?:%s)" % p for p in TRANSPARENT))
 
+_AND_THEN_RE = re.compile(r"^std::(option::Option|result::Result)::and_then$|^std::result::Result::map$")
 _MAP_OR_RE = re.compile(r"^std::(option::Option|result::Result)::(map_or|map_or_else)$")
 # value is one of the two arguments
 _UNION_ARGS_RE = re.compile(r"^(std::option::Option::unwrap_or|std::result::Result::unwrap_or|std::option::Option::unwrap_or_else|std::result::Result::unwrap_or_else)$")
@@ -762,6 +763,9 @@ class FnView:
                         out |= self._origins_op(o, (), taint, visiting, at)
                 return out
             if "closure" in rv:
+                if proj and str(proj[0]).isdigit() and int(proj[0]) < len(rv["ops"]):
+                    # a captured variable read through the closure value (body inlined at a direct call)
+                    return self._origins_op(rv["ops"][int(proj[0])], proj[1:], taint, visiting, at)
                 return {Origin("closure", rv["closure"], "%s:bb%d" % (self.path, b))}
             # tuple / array
             if proj and (proj[0].isdigit()) and rv.get("tuple"):
@@ -938,6 +942,11 @@ class FnView:
             f = self._origins_op(t["args"][1], (), False, visiting, at)
             if f and all(o.kind == "fnitem" and re.search(r"(as std::convert::(From|Into)<.*>>|^std::convert::(From|Into))::(from|into)$", norm_name(str(o.a))) for o in f):
                 return self._origins_op(t["args"][0], proj, taint, visiting, at)
+        if _AND_THEN_RE.search(callee) and len(t["args"]) == 2 and getattr(self, "model", None) is not None:
+            # r.and_then(|x| f(x)) / r.map(|x| f(x)): what the closure computes from the payload (an Err / None passes through)
+            r = self._closure_result_origins(t["args"][1], b, proj, taint, at)
+            if r is not None:
+                return r
         if _MAP_OR_RE.search(callee) and len(t["args"]) == 3 and getattr(self, "model", None) is not None:
             # opt.map_or(default, |x| e) / map_or_else(|| d, |x| e): the default, or what the closure computes from the payload
             r = self._closure_result_origins(t["args"][2], b, proj, taint, at)
